@@ -433,13 +433,16 @@ class LogicalType(type):  # noqa
                     return value
 
             xor = None
+            result = value
 
             for con in cls.args:
                 with context.enter(cls.combinator) as new_context:
                     try:
-                        value = new_context.transformer(value, con)
+                        # every condition is tried on the given input, not on the output of another one
+                        converted = new_context.transformer(value, con)
                         if xor is None:
                             xor = con
+                            result = converted
                         else:
                             context.handle_error(
                                 exc.OneOfViolatedError(
@@ -454,6 +457,7 @@ class LogicalType(type):  # noqa
             if xor is not None:
                 # only one condition is satisfied in XOR
                 context.clear_tmp_error()
+                value = result
 
         elif cls.combinator == "~":
             for con in cls.args:
